@@ -17,7 +17,8 @@ PARAM_POOL = ["err", "err2", "cleanup", "cleanup2", "cleanup3", "arg", "arg2", "
 DECL_POOL = ["err", "err2", "cleanup", "cleanup2", "arg", "v", "s", "foo", "foo2", "errs", "x1", "_wireFooValue", "v2"]
 
 
-def adversarial(rng, prog):
+def adversarial(rng, prog, opts=None):
+    opts = opts or {}
     """rename packages, types, parameters of `prog` from the adversarial pools; add package-level declarations"""
     # packages
     names = rng.sample(PKG_POOL, 3)
@@ -27,7 +28,7 @@ def adversarial(rng, prog):
         names[0], names[1] = rng.choice([("err2", "cleanup2"), ("cleanup2", "err2"), ("err2", "err3"), ("cleanup2", "cleanup3")])
         if names[2] in names[:2]:
             names[2] = "server"
-    if rng.random() < 0.3:
+    if rng.random() < opts.get("p_samepkg", 0.3):
         names[1] = names[0]                 # two packages with the same name, different directories
     for k, lp in enumerate(["liba", "libb"]):
         prog.pkgmap[lp] = {"dir": "d%d/%s" % (k, names[k]), "name": names[k]}
@@ -36,8 +37,10 @@ def adversarial(rng, prog):
     quals = {prog.qual(p) for p in prog.pkgs} | {"wire", "fmt", "wtrace"}
     # type names: unique per package, sometimes shared between packages
     used = {p: set() for p in prog.pkgs}
-    for u in prog.units:
-        for d in u.structs + u.ifaces:
+    ents = [d for u in prog.units if not getattr(u, "shadow", False) for d in u.structs + u.ifaces]
+    ents.sort(key=lambda d: {"liba": 0, "libb": 1, "app": 2}[d["pkg"]])
+    for _u in [None]:
+        for d in ents:
             for _ in range(30):
                 nm = rng.choice(TYPE_POOL)
                 if rng.random() < 0.25:
@@ -46,6 +49,11 @@ def adversarial(rng, prog):
                     break
             else:
                 nm = d["name"]
+            # packages that share a package name also share type names
+            if d["pkg"] == "libb" and names[0] == names[1] and rng.random() < 0.6:
+                free = [x for x in used["liba"] if x not in used["libb"]]
+                if free:
+                    nm = rng.choice(free)
             used[d["pkg"]].add(nm)
             d["name"] = nm
     # provider functions are numbered per package: two packages (possibly with the same package name)
